@@ -52,7 +52,8 @@ def main():
             print(line, flush=True)
             out.append(line)
     head = "HEAD of /repo: %s\n" % subprocess.check_output(["git", "-C", "/repo", "rev-parse", "--short", "HEAD"], text=True).strip()
-    open(os.path.join(HERE, "seeded", "REGRESSION.txt"), "w").write(head + "\n".join(out) + "\n")
+    fn = "REGRESSION.txt" if not args else "REGRESSION-partial.txt"
+    open(os.path.join(HERE, "seeded", fn), "w").write(head + "\n".join(out) + "\n")
     subprocess.run(["git", "-C", HERE, "checkout", "--", "evidence"], stderr=subprocess.DEVNULL)
 
 
